@@ -446,7 +446,7 @@ def _writes(pl):
 def to_model_ops(case, obs):
     """model-mode request: the history as the sequence of per-task model ops, in the order the implementation
     processed the tasks.  Returns (request, index): index[i] = (first, last+1) positions of obs[i] in the op list."""
-    ops, index = [], []
+    ops, index = [['checker', CK_MODEL[case['checker']]]], []
     for o in obs:
         a = len(ops)
         op = o['op']
@@ -491,7 +491,7 @@ def _record_ignored(o, t):
 def to_monitor_events(case, obs):
     """monitor-mode request: what the implementation was *seen* to do, for the ghost machine.
     Returns (request, tags): tags[j] = (obs index, task, kind) for events that carry an obligation."""
-    evs, tags = [], []
+    evs, tags = [['checker', CK_MODEL[case['checker']]]], []
     for i, o in enumerate(obs):
         op = o['op']
         base = _fs_op(op)
@@ -879,3 +879,349 @@ def allow_children():
         multiprocessing.current_process()._config['daemon'] = False
     except Exception:  # noqa
         pass
+
+
+# ----------------------------------------------------------------------------------------------
+# generators
+
+UTD_POOL = [(['const', True], 6), (['const', False], 2), (['none'], 2), (['runOnce'], 3), (['cfg', 1], 2),
+            (['cfg', 2], 2), (['shell', True], 1), (['shell', False], 1), (['custom', True], 1),
+            (['custom', False], 1), (['custom', None], 1)]
+
+
+def _weighted(rng, pool):
+    tot = sum(w for _, w in pool)
+    r = rng.random() * tot
+    for x, w in pool:
+        r -= w
+        if r <= 0:
+            return x
+    return pool[-1][0]
+
+
+class Shape(object):
+    """fixed layout of a case: sources 0..nsrc-1, target of task t = nsrc + t"""
+
+    def __init__(self, ntasks, nsrc):
+        self.ntasks, self.nsrc = ntasks, nsrc
+        self.npaths = nsrc + ntasks
+
+    def target(self, t):
+        return self.nsrc + t
+
+
+def gen_def(rng, sh, t, prev=None):
+    """a task definition; with `prev` a *variation* of it (dep removed / re-added, uptodate toggled, ...)"""
+    if prev is not None and rng.random() < 0.75:
+        d = json.loads(json.dumps(prev))
+        r = rng.random()
+        if r < 0.30 and d['deps']:
+            d['deps'].remove(rng.choice(d['deps']))
+        elif r < 0.55:
+            cand = [p for p in range(sh.nsrc) if p not in d['deps']]
+            if cand:
+                d['deps'].append(rng.choice(cand))
+            elif d['deps']:
+                d['deps'] = []
+        elif r < 0.65:
+            d['deps'] = []
+            if not d['uptodate']:
+                d['uptodate'] = [['const', True]]
+        elif r < 0.75:
+            rng.shuffle(d['deps'])
+        elif r < 0.85:
+            d['uptodate'] = d['uptodate'][:-1] if d['uptodate'] else [_weighted(rng, UTD_POOL)]
+        elif r < 0.93:
+            d['uptodate'] = d['uptodate'] + [_weighted(rng, UTD_POOL)]
+        else:
+            d['targets'] = [] if d['targets'] else [sh.target(t)]
+        return d
+    deps = [p for p in range(sh.nsrc) if rng.random() < 0.6]
+    if rng.random() < 0.2:
+        deps = []
+    earlier = list(range(t))
+    if earlier and rng.random() < 0.35:
+        deps.append(sh.target(rng.choice(earlier)))       # target -> file_dep composition
+    rng.shuffle(deps)
+    targets = [sh.target(t)] if rng.random() < 0.5 else []
+    utd = []
+    for _ in range(rng.choice([0, 0, 1, 1, 1, 2])):
+        utd.append(_weighted(rng, UTD_POOL))
+    if earlier and rng.random() < 0.3:
+        utd.append(['res', rng.choice(earlier)])             # result_dep composition
+    return {'deps': deps, 'targets': targets, 'uptodate': utd}
+
+
+def gen_plan(rng, sh, defs):
+    plan = {}
+    for t in range(sh.ntasks):
+        d = defs[t]
+        writes = []
+        for p in d['targets']:
+            if rng.random() < 0.85:
+                writes.append([p, rng.randrange(10, 16)])
+        own = [p for p in d['deps'] if p < sh.nsrc and
+               not any(p in defs[u]['deps'] for u in range(sh.ntasks) if u != t)]
+        if own and rng.random() < 0.12:
+            writes.append([rng.choice(own), rng.randrange(1, 8)])   # the action rewrites its own dependency
+        ok = rng.random() < 0.85
+        res = rng.choice([None, None, None, 1, 2, 3])
+        if writes or not ok or res is not None:
+            plan[str(t)] = {'ok': ok, 'writes': writes, 'res': res}
+    return plan
+
+
+def gen_case(rng, parallel=False, informational=False):
+    ntasks = rng.choice([1, 1, 1, 1, 2, 2, 2, 3, 3, 4])
+    nsrc = rng.choice([1, 2, 2, 3])
+    sh = Shape(ntasks, nsrc)
+    ops = []
+    for p in range(nsrc):
+        if rng.random() < 0.9:
+            ops.append(['edit', p, rng.randrange(1, 8)])
+    defs = {}
+    for t in range(ntasks):
+        defs[t] = gen_def(rng, sh, t)
+        ops.append(['redefine', t, defs[t]])
+    n = rng.randint(4, 14)
+    kinds = [('run', 30), ('redefine', 24), ('edit', 12), ('touch', 6), ('delete', 8), ('forget', 5),
+             ('ignore', 2), ('reset-dep', 5), ('checker', 4)]
+    if informational:
+        kinds.append(('editKeep', 8))
+    last_run = False
+    for i in range(n):
+        k = _weighted(rng, kinds)
+        if i == n - 1 or (not last_run and rng.random() < 0.25):
+            k = 'run'
+        last_run = (k == 'run')
+        if k == 'run':
+            spec = {'sel': None, 'always': rng.random() < 0.08, 'cont': rng.random() < 0.3, 'par': None,
+                    'plan': gen_plan(rng, sh, defs)}
+            if ntasks > 1 and rng.random() < 0.2:
+                spec['sel'] = sorted(rng.sample(range(ntasks), rng.randint(1, ntasks)))
+            if parallel and rng.random() < 0.6:
+                spec['par'] = rng.choice(['process', 'thread'])
+            ops.append(['run', spec])
+        elif k == 'redefine':
+            t = rng.randrange(ntasks)
+            defs[t] = gen_def(rng, sh, t, defs[t])
+            ops.append(['redefine', t, defs[t]])
+        elif k == 'edit':
+            ops.append(['edit', rng.randrange(nsrc), rng.randrange(1, 8)])
+        elif k == 'editKeep':
+            ops.append(['editKeep', rng.randrange(nsrc), rng.randrange(1, 8)])
+        elif k == 'touch':
+            ops.append(['touch', rng.randrange(sh.npaths)])
+        elif k == 'delete':
+            ops.append(['delete', rng.randrange(sh.npaths) if rng.random() < 0.6 else sh.target(rng.randrange(ntasks))])
+        elif k == 'forget':
+            ops.append(['forget', [] if rng.random() < 0.3 else [rng.randrange(ntasks)]])
+        elif k == 'ignore':
+            ops.append(['ignore', [rng.randrange(ntasks)]])
+        elif k == 'reset-dep':
+            ops.append(['reset-dep', [] if rng.random() < 0.5 else [rng.randrange(ntasks)]])
+        elif k == 'checker':
+            ops.append(['checker', rng.choice(CHECKERS)])
+    return {'backend': rng.choice(BACKENDS), 'checker': rng.choice(CHECKERS), 'ntasks': ntasks,
+            'npaths': sh.npaths, 'ops': ops}
+
+
+def mutate_case(rng, case):
+    """a variation of a corpus seed: insert / drop / duplicate ops, other backend or checker"""
+    c = json.loads(json.dumps(case))
+    c.pop('matrix', None)
+    c.pop('comment', None)
+    ops = c['ops']
+    for _ in range(rng.randint(1, 3)):
+        r = rng.random()
+        if r < 0.3 and len(ops) > 3:
+            del ops[rng.randrange(len(ops))]
+        elif r < 0.6:
+            ops.insert(rng.randrange(len(ops) + 1), json.loads(json.dumps(rng.choice(ops))))
+        else:
+            extra = rng.choice([['touch', 0], ['edit', 0, rng.randrange(1, 8)], ['run', {'plan': {}}],
+                                ['forget', []], ['reset-dep', []], ['delete', 0],
+                                ['checker', rng.choice(CHECKERS)]])
+            ops.insert(rng.randrange(len(ops) + 1), extra)
+    c['backend'] = rng.choice(BACKENDS)
+    if rng.random() < 0.3:
+        c['checker'] = rng.choice(CHECKERS)
+    return c
+
+
+EXH_PREFIX = [['edit', 0, 1], ['edit', 1, 2], ['redefine', 0, {'deps': [0], 'targets': [], 'uptodate': []}]]
+EXH_ALPHABET = {
+    'A': ['redefine', 0, {'deps': [0], 'targets': [], 'uptodate': []}],
+    'B': ['redefine', 0, {'deps': [], 'targets': [], 'uptodate': [['const', True]]}],
+    'C': ['redefine', 0, {'deps': [1, 0], 'targets': [], 'uptodate': [['const', True]]}],
+    'R': ['run', {'plan': {}}],
+    'F': ['run', {'plan': {'0': {'ok': False, 'writes': [], 'res': None}}}],
+    'E': ['edit', 0, 3],
+    'T': ['touch', 0],
+    'G': ['forget', [0]],
+    'S': ['reset-dep', [0]],
+}
+
+
+def exhaustive_cases(maxlen):
+    """every history of length <= maxlen over the 9-op alphabet on one task that ends in an observing op
+    (run / failing run / reset-dep); backend and checker rotate"""
+    letters = sorted(EXH_ALPHABET)
+    seqs = ['']
+    out = []
+    n = 0
+    for _ in range(maxlen):
+        seqs = [s + a for s in seqs for a in letters]
+        for s in seqs:
+            if s[-1] in 'RFS' and ('R' in s or 'S' in s[:-1]):
+                out.append({'backend': BACKENDS[n % 3], 'checker': CHECKERS[(n // 3) % 2], 'ntasks': 1, 'npaths': 2,
+                            'ops': EXH_PREFIX + [json.loads(json.dumps(EXH_ALPHABET[a])) for a in s], 'word': s})
+                n += 1
+    return out
+
+
+def expand_corpus(prop):
+    """corpus cases; a case with 'matrix': true runs on every backend x both checkers"""
+    out = []
+    for name, c in common.load_corpus(prop):
+        if c.get('matrix'):
+            for b in BACKENDS:
+                for ck in CHECKERS:
+                    cc = json.loads(json.dumps(c))
+                    cc['backend'], cc['checker'] = b, ck
+                    out.append((name, cc))
+        else:
+            out.append((name, c))
+    return out
+
+
+# ----------------------------------------------------------------------------------------------
+# the check shared by C03 and C04
+
+def nontrivial(case, v):
+    """a history is non-trivial when the implementation both skipped and executed something in it"""
+    return v.n_skip > 0 and v.n_exec > 0
+
+
+def strip(case):
+    return {k: case[k] for k in ('backend', 'checker', 'ntasks', 'npaths', 'ops')}
+
+
+def failing_predicate(prop):
+    def fails(case):
+        v = evaluate([strip(case)])[0]
+        return bool(v.c03 if prop == 'C03' else v.c04)
+    return fails
+
+
+def process_batch(arg):
+    """worker: evaluate a batch, return WorkerStats.  arg = (prop, [(origin, case)...])"""
+    prop, batch = arg
+    allow_children()
+    st = common.WorkerStats()
+    cases = [strip(c) for _, c in batch]
+    verdicts = evaluate(cases)
+    shrunk = 0
+    for (origin, _), case, v in zip(batch, cases, verdicts):
+        st.case({'history': render(case)}, nontrivial(case, v))
+        st.traces += 1
+        st.count('origin:' + origin)
+        st.count('backend:' + case['backend'])
+        st.count('checker0:' + case['checker'])
+        st.count('tasks:%d' % case['ntasks'])
+        st.count('len:%s' % ('<=8' if len(case['ops']) <= 8 else '<=14' if len(case['ops']) <= 14 else '>14'))
+        for op in case['ops']:
+            st.count('op:' + op[0])
+            if op[0] == 'run' and op[1].get('par'):
+                st.count('run:par-' + op[1]['par'])
+            if op[0] == 'run' and op[1].get('always'):
+                st.count('run:always')
+        for k, n in v.branches.items():
+            st.count('model:' + k, n)
+        st.count('impl:skips', v.n_skip)
+        st.count('impl:executions', v.n_exec)
+        if v.crash:
+            st.count('impl:crash-' + str(v.crash[1]))
+        bad = v.c03 if prop == 'C03' else v.c04
+        if v.informational:
+            st.count('informational:histories')
+            if v.c03:
+                st.count('informational:c03-monitor-false')
+            if v.c04:
+                st.count('informational:c04-monitor-false')
+            continue
+        if bad:
+            small = case
+            if shrunk < 2:
+                shrunk += 1
+                small = shrink(case, failing_predicate(prop))
+            v2 = evaluate([small])[0]
+            bad2 = (v2.c03 if prop == 'C03' else v2.c04) or bad
+            i, t, kind = bad2[0]
+            what = ('skipped %s although the specification (shadow of its last recorded successful execution) says '
+                    'it is stale' % tname(t)) if prop == 'C03' else \
+                   ('executed %s although nothing changed since its last recorded successful execution' % tname(t))
+            st.violation({'case': small, 'rendered': render(small), 'at_op': i, 'task': tname(t), 'event': kind,
+                          'origin': origin},
+                         'monitor', what)
+        elif v.divergence:
+            i, what, impl, model = v.divergence
+            st.divergence({'case': case, 'rendered': render(case), 'at_op': i, 'impl': impl, 'model': model,
+                           'origin': origin}, 'correspondence M2: ' + what)
+    return st
+
+
+def run_property(ctx, prop, n_random, exh_len, parallel_share=0.0, n_info=0):
+    rng = ctx.rng
+    items = []
+    corpus = expand_corpus(prop)
+    for name, c in corpus:
+        items.append(('corpus', c))
+    seeds = [c for _, c in corpus]
+    for i in range(n_random):
+        r = random_for(ctx, i)
+        if seeds and r.random() < 0.15:
+            items.append(('corpus-mutation', mutate_case(r, r.choice(seeds))))
+        else:
+            par = r.random() < parallel_share
+            items.append(('random-parallel' if par else 'random', gen_case(r, parallel=par)))
+    for i in range(n_info):
+        items.append(('informational', gen_case(random_for(ctx, 'info%d' % i), informational=True)))
+    ex = exhaustive_cases(exh_len)
+    ctx.extra['exhaustive_small_scope'] = {'alphabet': len(EXH_ALPHABET), 'max_len': exh_len, 'histories': len(ex),
+                                           'filter': 'ends in run / failing run / reset-dep, contains a run'}
+    for c in ex:
+        items.append(('exhaustive', c))
+    size = max(8, min(60, len(items) // (common.NCPU * 3) + 1))
+    batches = [(prop, items[i:i + size]) for i in range(0, len(items), size)]
+    for st in common.pmap(process_batch, batches):
+        st.merge_into(ctx)
+
+
+def random_for(ctx, i):
+    import random
+    return random.Random(common.canon([ctx.seed, getattr(ctx, 'seed_shift', 0), ctx.prop, i]))
+
+
+def replay_case(ctx, data, prop):
+    w = data.get('witness') or {}
+    case = w.get('case')
+    if not case:
+        print('nothing to replay (no failing input was found): %s' % data.get('note'))
+        return False
+    case = strip(case)
+    print('\n'.join(render(case)))
+    v = evaluate([case])[0]
+    for i, o in enumerate(v.obs):
+        if o['kind'] == 'run':
+            print('  op %d: doit run -> exit %s: %s' % (i, o['code'], ', '.join('%s %s' % (tname(t), out)
+                                                                             for t, out, _ in o['steps'])))
+        elif o['kind'] == 'reset-dep':
+            print('  op %d: reset-dep -> %s' % (i, o['reset']))
+    print('C03 monitor (skipped => specification holds) false at:', v.c03)
+    print('C04 monitor (executed without --always => specification fails) false at:', v.c04)
+    print('correspondence:', v.divergence)
+    if v.crash:
+        print('doit crashed:', v.crash)
+    bad = v.c03 if prop == 'C03' else v.c04
+    return not bad and not (w.get('impl') is not None and v.divergence)
